@@ -936,8 +936,9 @@ package plenccodec
 //@ # esc_parses_back), and a closing quotation mark. Ghosts, defined by their recurrences
 //@ # under wfesc(): eoff(i) is the offset of source byte i's unit in the string body; esrc(k)
 //@ # and eidx(k) are the source byte and the position within its unit that body offset k shows.
+//@ # (C13 as well: the strings and field names of the walker's JSON are written by this function)
 //@ func plenccodec.*JSONOutput.appendString
-//@   safety C15
+//@   safety C15 C13
 //@   mutable
 //@   assigns nothing
 //@   ghostdef wfesc() ==> eoff(0) == 0
@@ -945,17 +946,17 @@ package plenccodec
 //@   loop 1 ghostdef wfesc() && i < len(v) ==> esrc(eoff(i)) == i && eidx(eoff(i)) == 0
 //@   loop 1 ghostdef wfesc() && i < len(v) && esclen(v[i]) > 1 ==> esrc(eoff(i) + 1) == i && eidx(eoff(i) + 1) == 1
 //@   loop 1 ghostdef wfesc() && i < len(v) && esclen(v[i]) > 2 ==> esrc(eoff(i) + 2) == i && eidx(eoff(i) + 2) == 2 && esrc(eoff(i) + 3) == i && eidx(eoff(i) + 3) == 3 && esrc(eoff(i) + 4) == i && eidx(eoff(i) + 4) == 4 && esrc(eoff(i) + 5) == i && eidx(eoff(i) + 5) == 5
-//@   loop 1 invariant[C15] 0 <= i && i <= len(v) && len(data) > len(data0)
-//@   loop 1 invariant[C15] wfesc() ==> len(data) == len(data0) + 1 + eoff(i) && 0 <= eoff(i) && eoff(i) <= 6 * i
-//@   loop 1 invariant[C15,C06] forall k int :: 0 <= k && k < len(data0) ==> data[k] == data0[k]
-//@   loop 1 invariant[C15] data[len(data0)] == '"'
-//@   loop 1 invariant[C15] wfesc() ==> forall k int :: 0 <= k && k < eoff(i) ==> data[len(data0) + 1 + k] == escbyte(v[esrc(k)], eidx(k))
+//@   loop 1 invariant[C15,C13] 0 <= i && i <= len(v) && len(data) > len(data0)
+//@   loop 1 invariant[C15,C13] wfesc() ==> len(data) == len(data0) + 1 + eoff(i) && 0 <= eoff(i) && eoff(i) <= 6 * i
+//@   loop 1 invariant[C15,C06,C13] forall k int :: 0 <= k && k < len(data0) ==> data[k] == data0[k]
+//@   loop 1 invariant[C15,C13] data[len(data0)] == '"'
+//@   loop 1 invariant[C15,C13] wfesc() ==> forall k int :: 0 <= k && k < eoff(i) ==> data[len(data0) + 1 + k] == escbyte(v[esrc(k)], eidx(k))
 //@   loop 1 decreases len(v) - i
-//@   ensures[C15] wfesc() ==> len(result) == len(data) + 2 + eoff(len(v))
-//@   ensures[C15,C06] forall k int :: 0 <= k && k < len(data) ==> result[k] == data[k]
-//@   ensures[C15] result[len(data)] == '"'
-//@   ensures[C15] wfesc() ==> result[len(data) + 1 + eoff(len(v))] == '"'
-//@   ensures[C15] wfesc() ==> forall k int :: 0 <= k && k < eoff(len(v)) ==> result[len(data) + 1 + k] == escbyte(v[esrc(k)], eidx(k))
+//@   ensures[C15,C13] wfesc() ==> len(result) == len(data) + 2 + eoff(len(v))
+//@   ensures[C15,C06,C13] forall k int :: 0 <= k && k < len(data) ==> result[k] == data[k]
+//@   ensures[C15,C13] result[len(data)] == '"'
+//@   ensures[C15,C13] wfesc() ==> result[len(data) + 1 + eoff(len(v))] == '"'
+//@   ensures[C15,C13] wfesc() ==> forall k int :: 0 <= k && k < eoff(len(v)) ==> result[len(data) + 1 + k] == escbyte(v[esrc(k)], eidx(k))
 
 //@ # The outputter's representation invariant WF: depth counts the open containers, one stack entry
 //@ # each (j.depth == len(j.stack) && j.depth >= 0), every entry holds one of the three states below, and
